@@ -17,6 +17,10 @@ CallIdxs(c)   == {i \in 1..Len(c) : c[i].k = "call"}
 NC(c)         == Cardinality(CallIdxs(c))
 TopCallIdx(c) == CHOOSE i \in CallIdxs(c) : \A j \in CallIdxs(c) : j <= i
 TopCall(c)    == c[TopCallIdx(c)]
+\* A return can leave several activations in one step (`return g()`): the call frame whose statement receives the value
+\* is the outermost one that is popped, i.e. the (n+1)-th call frame of the stack when n activations remain.
+KthCall(c, k) == c[CHOOSE i \in CallIdxs(c) : Cardinality({j \in CallIdxs(c) : j <= i}) = k]
+RetCall(c, n) == KthCall(c, n + 1)
 ActEnv(c)     == TopCall(c).env
 ActFn(c)      == envs[ActEnv(c)].fn
 ActFrames(c)  == {c[j] : j \in TopCallIdx(c)..Len(c)}
